@@ -27,6 +27,7 @@ import (
 	"strconv"
 	"strings"
 	"sync"
+	"sync/atomic"
 	"time"
 
 	"verifharness/drv"
@@ -134,6 +135,7 @@ type world struct {
 	bound    int
 	scheds   int
 	nilGuns  int
+	timedOut bool
 	allBound chan struct{}
 	release  chan struct{}
 }
@@ -673,10 +675,19 @@ func (p engProv) Run(ctx context.Context, _ core.ProviderDeps) error { <-ctx.Don
 func (p engProv) Acquire() (core.Ammo, bool) {
 	// no ammo — but only after every instance has been created, so that "out of ammo" cannot stop the start
 	// loop early (which would make the number of started instances a race)
+	wait := 8 * time.Second
+	if acquireTimeouts.Load() >= 3 {
+		wait = 100 * time.Millisecond // a tree on which the instances never all start: do not spend 8 s on every case
+	}
 	select {
 	case <-p.w.allBound:
 	case <-p.w.release:
-	case <-time.After(5 * time.Second):
+	case <-time.After(wait):
+		// inconclusive: "out of ammo" now may stop the start loop early
+		acquireTimeouts.Add(1)
+		p.w.mu.Lock()
+		p.w.timedOut = true
+		p.w.mu.Unlock()
 	}
 	return nil, false
 }
@@ -689,6 +700,8 @@ func (engAggr) Report(core.Sample)                                   {}
 
 // the world of the engine case that is running (engine cases are serialised by hookMu)
 var engWorld *world
+
+var acquireTimeouts atomic.Int64
 
 var errPat = regexp.MustCompile(`\b(fill|ctor|fact)[0-9]+\b`)
 
@@ -790,6 +803,9 @@ func c18Engine(kv map[string]string, w *world) string {
 	}
 	w.mu.Lock()
 	defer w.mu.Unlock()
+	if w.timedOut {
+		return "eng skip=not-all-instances-started-in-time"
+	}
 	prods := append([]*comp(nil), w.products...)
 	sort.Slice(prods, func(i, j int) bool { return prods[i].serial < prods[j].serial })
 	cells := map[*Conf]bool{}
@@ -825,7 +841,7 @@ func c18Engine(kv map[string]string, w *world) string {
 func main() {
 	pluginconfig.AddHooks() // once, before any case runs: the engine path decodes a whole engine.Config
 	drv.Main(&drv.Prop{ID: "C18", Gen: c18Gen, Run: c18Run, Class: c18Class, Workers: 8,
-		Rule: "every constructor shape (component|factory x config none|struct|*struct x ctor error x factory error x impl|interface product x default-config absent|fresh|nil|shared) x requested form (New, factory without/with error) x fillConf given or not, each run with a fault-free and a random fault plan and a random number k<=20 of calls (thorough: some k up to 120, plus EVERY fault plan over invocation indices 0..2 for k=2; registrations Register must refuse: one case per shape and round); per valid shape x form one run through pluginconfig.Hook/FactoryHook with the real config decoder as fillConf and one with settings the decoder refuses; per valid shape one pool of the real engine (constructor registered with core/register.Gun, engine.Config decoded with the plugin hooks, 0..6 instances, shared or per-instance rps schedule, faults at warm-up / first instance); per valid shape two histories (direct and through the hooks): 2..4 creations on ONE registration, each of a random form with its own user settings and 0..4 calls, one fault plan over the running invocation indices; Register driven over constructor and default-config TYPES (supported forms and their neighbours: arity, result kinds, config kinds, implements, default-config function type, plugin type, name, duplicate); non-trivial = at least one call, a refused registration, or a type case"})
+		Rule: "every constructor shape (component|factory x config none|struct|*struct x ctor error x factory error x impl|interface product x default-config absent|fresh|nil|shared) x requested form (New, factory without/with error) x fillConf given or not, each run with a fault-free and a random fault plan and a random number k<=20 of calls (thorough: some k up to 120, plus EVERY fault plan over invocation indices 0..2 for k=2 and, for pointer configs, 0..3 for k=3; registrations Register must refuse: one case per shape and round); per valid shape x form one run through pluginconfig.Hook/FactoryHook with the real config decoder as fillConf and one with settings the decoder refuses; per valid shape one pool of the real engine (constructor registered with core/register.Gun, engine.Config decoded with the plugin hooks, 0..6 instances, shared or per-instance rps schedule, faults at warm-up / first instance); per valid shape two histories (direct and through the hooks): 2..4 creations on ONE registration, each of a random form with its own user settings and 0..4 calls, one fault plan over the running invocation indices; Register driven over constructor and default-config TYPES (supported forms and their neighbours: arity, result kinds, config kinds, implements, default-config function type, plugin type, name, duplicate); non-trivial = at least one call, a refused registration, or a type case"})
 }
 
 func c18Class(input, obs string) string {
@@ -889,7 +905,7 @@ func subset(r *rand.Rand, n int) string {
 func c18Gen(r *rand.Rand, tier string) []string {
 	rounds := 5
 	if tier == "thorough" {
-		rounds = 500
+		rounds = 900
 	}
 	var out []string
 	val := func() string { return strconv.Itoa(r.Intn(90) + 1) }
@@ -1020,7 +1036,8 @@ func c18Gen(r *rand.Rand, tier string) []string {
 	}
 	out = append(out, regCases(r, tier)...)
 	if tier == "thorough" {
-		out = append(out, exhaustiveSmall()...)
+		out = append(out, exhaustiveSmall(2, false)...)
+		out = append(out, exhaustiveSmall(3, true)...)
 	}
 	return out
 }
@@ -1075,18 +1092,19 @@ func regCases(r *rand.Rand, tier string) []string {
 	return out
 }
 
-// exhaustiveSmall: every valid shape x form x fillConf given or not, k = 2, EVERY fault plan over the invocation
-// indices 0..2 of every kind of user code that can fail for the shape.
-func exhaustiveSmall() []string {
+// exhaustiveSmall: every valid shape x form x fillConf given or not, k calls, EVERY fault plan over the invocation
+// indices 0..k of every kind of user code that can fail for the shape (ptrOnly: only the shapes with a pointer config
+// and a fresh or shared default, where configuration identity matters most).
+func exhaustiveSmall(k int, ptrOnly bool) []string {
 	var out []string
 	subsets := func(on bool) []string {
 		if !on {
 			return []string{""}
 		}
 		var ss []string
-		for m := 0; m < 8; m++ {
+		for m := 0; m < 1<<(k+1); m++ {
 			var idx []string
-			for i := 0; i < 3; i++ {
+			for i := 0; i <= k; i++ {
 				if m&(1<<i) != 0 {
 					idx = append(idx, strconv.Itoa(i))
 				}
@@ -1107,13 +1125,16 @@ func exhaustiveSmall() []string {
 							if (cfg == 'n' && df != 'a') || (cfg == 's' && (df == 'n' || df == 's')) {
 								continue
 							}
+							if ptrOnly && (cfg != 'p' || (df != 'f' && df != 's')) {
+								continue
+							}
 							for _, form := range []string{"c", "f1", "f2"} {
 								for fill := 0; fill < 2; fill++ {
 									for _, ff := range subsets(fill == 1) {
 										for _, cf := range subsets(ce == 'E') {
 											for _, rf := range subsets(fa == 'F' && fe == 'E') {
-												out = append(out, fmt.Sprintf("sh=%c%c%c%c%c%c form=%s fill=%d d=5/6/7 u=_/9/_ k=2 ff=%s cf=%s rf=%s",
-													fa, cfg, ce, fe, ifc, df, form, fill, ff, cf, rf))
+												out = append(out, fmt.Sprintf("sh=%c%c%c%c%c%c form=%s fill=%d d=5/6/7 u=_/9/_ k=%d ff=%s cf=%s rf=%s",
+													fa, cfg, ce, fe, ifc, df, form, fill, k, ff, cf, rf))
 											}
 										}
 									}
